@@ -21,6 +21,7 @@ func checkC01(r *Run) {
 	gh := newMatchGen(rng, pick(r, 4, 6), pick(r, 12, 16), 3, 3, pick(r, 30, 50), true)
 	gh.Hosts = append(derivedHostsFirst(gh, pick(r, 8, 14)), "a.b", "a.ab", "a.b.ab")
 	runMatchD1(r, gh, "direct", false, pick(r, 5*time.Minute, 40*time.Minute))
+	runMatchD2(r, false, false)
 	r.assumption("the reference matcher of spec/FoxMatch.tla is the documented routing rule (DESIGN.md 3.1, 7)")
 	r.assumption("requests have no empty path segment")
 }
@@ -30,6 +31,7 @@ func checkC09(r *Run) {
 	rng := rand.New(rand.NewSource(r.Seed))
 	g := newMatchGen(rng, pick(r, 6, 8), pick(r, 12, 18), 3, 3, pick(r, 24, 40), true)
 	runMatchD1(r, g, "all", false, pick(r, 5*time.Minute, 40*time.Minute))
+	runMatchD2(r, false, true)
 	r.assumption("hostname comparison is exact and case-sensitive after removing one port and one trailing dot")
 }
 
